@@ -334,26 +334,27 @@ Proof.
       assert (Hbody : forall g rc cc ln0, ch_body g (defs_of st) (input_data st) (snd i) [] (cl_body cl) (cl_body cl) 0
                         = (rc, cc, ln0) -> rc <> OutOfFuel -> rc = Val v).
       { intros g rc cc ln0 Hc Hrc. eapply align_body; eauto; try discriminate; try apply not_deep_val. }
-      destruct (cl_cached cl) eqn:Ec.
-      * unfold store_value in H.
-        assert (Hcase : (v = VNone /\ cl_allow_none cl = false /\ r = Err KNone /\ st' = rollback_frame st2 0) \/
-                        (none_check cl v = Val v /\ r = Val v /\ s_rolled st' = s_rolled st2)).
-        { unfold none_check. rewrite Ec. destruct v as [z|].
-          - right. inversion H; subst. repeat split; auto; rewrite rolled_pop; reflexivity.
-          - destruct (cl_allow_none cl) eqn:Ea.
-            + right. inversion H; subst. repeat split; auto; rewrite rolled_pop; reflexivity.
-            + left. inversion H; subst. auto. }
-        destruct Hcase as [(-> & Ea & -> & ->)|(Hnc & -> & Hs)].
-        -- split; [intros v Hv; discriminate|].
-           intros k Hk g rc cc Hc Hrc. destruct g; [simpl in Hc; inversion Hc; congruence|].
-           pose proof (Hnode g rc cc Hc) as Hn.
-           destruct (ch_body g (defs_of st) (input_data st) (snd i) [] (cl_body cl) (cl_body cl) 0) as [[rb0 cb0] ln0] eqn:Cb.
-           assert (Hrb0 : rb0 <> OutOfFuel) by (intros ->; inversion Hn; congruence).
-           rewrite (Hbody _ _ _ _ Cb Hrb0) in Hn.
-           unfold none_check in Hn. rewrite Ec, Ea in Hn. inversion Hn; subst.
-           rewrite (rolled_rollback st2 i (s_stack st) 0 K2). now rewrite (VB VNone eq_refl).
-        -- split; [intros w Hw; rewrite Hs; now apply (VB v)|intros k Hk; discriminate].
-      * inversion H; subst. split; [intros w Hw; rewrite rolled_pop; now apply (VB v)|intros k Hk; discriminate].
+      assert (Hcase : (v = VNone /\ cl_allow_none cl = false /\ r = Err KNone /\ st' = rollback_frame st2 0) \/
+                      (none_check cl v = Val v /\ r = Val v /\ s_rolled st' = s_rolled st2)).
+      { unfold none_check. destruct (cl_cached cl) eqn:Ec; [unfold store_value in H|]; destruct v as [z|].
+        - right. inversion H; subst. repeat split; auto; rewrite rolled_pop; reflexivity.
+        - destruct (cl_allow_none cl) eqn:Ea.
+          + right. inversion H; subst. repeat split; auto; rewrite rolled_pop; reflexivity.
+          + left. inversion H; subst. auto.
+        - right. inversion H; subst. repeat split; auto; rewrite rolled_pop; reflexivity.
+        - destruct (cl_allow_none cl) eqn:Ea.
+          + right. inversion H; subst. repeat split; auto; rewrite rolled_pop; reflexivity.
+          + left. inversion H; subst. auto. }
+      destruct Hcase as [(-> & Ea & -> & ->)|(Hnc & -> & Hs)].
+      * split; [intros v Hv; discriminate|].
+        intros k Hk g rc cc Hc Hrc. destruct g; [simpl in Hc; inversion Hc; congruence|].
+        pose proof (Hnode g rc cc Hc) as Hn.
+        destruct (ch_body g (defs_of st) (input_data st) (snd i) [] (cl_body cl) (cl_body cl) 0) as [[rb0 cb0] ln0] eqn:Cb.
+        assert (Hrb0 : rb0 <> OutOfFuel) by (intros ->; inversion Hn; congruence).
+        rewrite (Hbody _ _ _ _ Cb Hrb0) in Hn.
+        unfold none_check in Hn. rewrite Ea in Hn. inversion Hn; subst.
+        rewrite (rolled_rollback st2 i (s_stack st) 0 K2). now rewrite (VB VNone eq_refl).
+      * split; [intros w Hw; rewrite Hs; now apply (VB v)|intros k Hk; discriminate].
     + (* the body failed *)
       inversion H; subst. split; [intros v Hv; discriminate|].
       intros k Hk g rc cc Hc Hrc. inversion Hk; subst kb.
